@@ -118,6 +118,9 @@ def check_case(case, ctx):
             ctx.fail("identity-incomplete:%s" % cert["worst_kind"],
                      "certificate identity has a non-constant residual %.3e (tol %.1e): some multiplier is missing, "
                      "misplaced or has the wrong sign" % (cert["max_nonconst"], tol))
+    if cert.get("entry_sym_err", 0.0) > tol:
+        ctx.fail("entry-multipliers-inconsistent-with-lmi-multiplier",
+                 "the symmetric part of entries_dual_variable_value differs from the LMI multiplier by %.3e" % cert["entry_sym_err"])
     if cert["min_ineq_dual"] < -tol:
         ctx.fail("negative-inequality-multiplier", "inequality multiplier %.3e < 0" % cert["min_ineq_dual"])
     if cert["min_eig_S"] < -tol:
